@@ -67,10 +67,13 @@ Fix(e) ==
     [] e.op = "kick"   -> [op |-> "kick", acc |-> SeqToSet(e.acc), tacc |-> SeqToSet(e.tacc), ban |-> e.ban,
                            third |-> e.third, pacc |-> SeqToSet(e.pacc), shared |-> e.shared]
     [] e.op = "rt"     -> [op |-> "rt", S |-> SeqToSet(e.S)]
-    [] e.op = "upd"    -> [op |-> "upd", via |-> e.via, S |-> SeqToSet(e.S), old |-> SeqToSet(e.old)]
+    [] e.op = "upd"    -> [op |-> "upd", via |-> e.via, S |-> SeqToSet(e.S), old |-> SeqToSet(e.old), near |-> e.near, B |-> SeqToSet(e.B)]
+    [] e.op = "batch"  -> [op |-> "batch", acc |-> SeqToSet(e.acc),
+                           entries |-> [i \in DOMAIN e.entries |-> [kind |-> e.entries[i].kind, login |-> e.entries[i].login,
+                                                                    set |-> SeqToSet(e.entries[i].set)]]]
     [] e.op = "open"   -> [op |-> "open", S |-> SeqToSet(e.S), racc |-> SeqToSet(e.racc)]
     [] e.op = "multi"  -> [op |-> "multi", kind |-> e.kind, edit |-> e.edit, n |-> e.n, k |-> e.k, a0 |-> SeqToSet(e.a0),
-                           a1 |-> SeqToSet(e.a1), ban |-> e.ban, via |-> e.via, want |-> SeqToSet(e.want)]
+                           a1 |-> SeqToSet(e.a1), ban |-> e.ban, via |-> e.via, want |-> SeqToSet(e.want), near |-> e.near]
     [] OTHER -> [op |-> "unknown"]
 
 P(kind, prop, what, detail) == [kind |-> kind, prop |-> prop, what |-> what, detail |-> detail]
@@ -208,6 +211,26 @@ RtProblems(e, s) ==
       ELSE <<>>)
   \o (IF ToBytes(S) # e.bytes THEN <<P("DRIFT", "C16", "script bytes are not ToBytes(S)", [b |-> e.bytes])>> ELSE <<>>)
 
+(* a multi-entry Update User batch.  made: one record per "create" entry, in order: [i (entry number), login, mem, disk]
+   (bitmap bytes of that account afterwards in the running / a freshly loaded account manager, <<>> = absent). *)
+BatchProblems(e, s, maccts) ==
+  LET kinds == [i \in DOMAIN s.entries |-> s.entries[i].kind]
+      one(m) ==
+        LET cur == CurAt(s.entries, m.i, s.acc)        \* the creator at the time of that entry
+            inMem == Len(m.mem) = 8
+            onDisk == Len(m.disk) = 8
+            memS == IF inMem THEN FromBytes(m.mem) ELSE {}
+            diskS == IF onDisk THEN FromBytes(m.disk) ELSE {}
+            d == [creator |-> s.acc, kinds |-> kinds, entry |-> m.i, creator_then |-> cur, login |-> m.login, reply |-> e.reply,
+                  mem |-> IF inMem THEN memS ELSE {-1}, disk |-> IF onDisk THEN diskS ELSE {-1}]
+        IN (IF inMem /\ ~(memS \subseteq cur) THEN <<P("VIOL", "C06", "amplified-in-batch-memory", [d EXCEPT !.mem = memS \ cur])>> ELSE <<>>)
+           \o (IF onDisk /\ ~(diskS \subseteq cur) THEN <<P("VIOL", "C06", "amplified-in-batch-file", [d EXCEPT !.disk = diskS \ cur])>> ELSE <<>>)
+           \o (IF (m.login \in DOMAIN maccts) /\ e.reply = "ok" /\ (~inMem \/ ~onDisk)
+                 THEN <<P("DRIFT", "C06", "permitted creation in a batch did not happen", d)>> ELSE <<>>)
+      RECURSIVE all(_)
+      all(k) == IF k > Len(e.made) THEN <<>> ELSE one(e.made[k]) \o all(k + 1)
+  IN all(1)
+
 (* an account editor opens, lists and re-saves an account: gwire / lwire = the access field of the Get User reply /
    of the account's entry in the List Users reply; saved = the editor (holding 17) sent Set User with the bytes it
    received; mem / disk = the account afterwards in the running / a freshly loaded account manager *)
@@ -237,7 +260,7 @@ OpenProblems(e, s) ==
    ban file; mem / disk as for create; editreply: the administrator's reply to the edit. *)
 MultiProblems(e, s, mrep, maccts) ==
   LET which == IF s.k = 1 THEN "first-session" ELSE "later-session"
-      d == [kind |-> s.kind, edit |-> s.edit, n |-> s.n, k |-> s.k, session |-> which, a0 |-> s.a0, a1 |-> s.a1, ban |-> s.ban,
+      d == [kind |-> s.kind, edit |-> s.edit, n |-> s.n, k |-> s.k, near |-> s.near, session |-> IF s.near = "none" THEN which ELSE "namesake-" \o s.near, a0 |-> s.a0, a1 |-> s.a1, ban |-> s.ban,
             via |-> s.via, want |-> s.want, reply |-> e.reply, sclosed |-> e.sclosed, banned |-> e.banned,
             mem |-> IF Len(e.mem) = 8 THEN FromBytes(e.mem) ELSE {-1}, disk |-> IF Len(e.disk) = 8 THEN FromBytes(e.disk) ELSE {-1}]
       anyClosed == \E i \in DOMAIN e.sclosed : e.sclosed[i]
@@ -248,6 +271,9 @@ MultiProblems(e, s, mrep, maccts) ==
   IN
   IF e.editreply # "ok"
     THEN <<P("DRIFT", "C06", "the account edit did not run as intended", d)>>
+  ELSE IF s.kind = "kick" /\ s.near # "none" THEN    \* the target is the protected near-namesake's session
+       (IF e.bclosed THEN <<P("VIOL", "C06", "protected-namesake-disconnected-after-edit", d)>> ELSE <<>>)
+       \o (IF e.banned THEN <<P("VIOL", "C06", "protected-namesake-banned-after-edit", d)>> ELSE <<>>)
   ELSE IF s.kind = "kick" THEN
        (IF 23 \in s.a1 /\ anyClosed THEN <<P("VIOL", "C06", "protected-session-disconnected-after-edit", d)>> ELSE <<>>)
        \o (IF 23 \in s.a1 /\ e.banned THEN <<P("VIOL", "C06", "protected-session-banned-after-edit", d)>> ELSE <<>>)
@@ -280,6 +306,13 @@ UpdProblems(e, s) ==
       \o V("update-file", dK, SD)                                     \* the file says the new set
       \o V("login-wire", lW \cap Defined, s.old \cap Defined)
       \o (IF s.via = 353 /\ ~told THEN <<P("DRIFT", "C16", "no user-access notice after Set User", [n |-> e.n354])>> ELSE <<>>)
+      \o (IF s.near = "none" THEN <<>> ELSE      \* the bystander account and its session are not the edited account
+            LET bA == SeqToSet(e.bauth)
+                bK == IF Len(e.bdisk) = 8 THEN FromBytes(e.bdisk) ELSE {-1}
+            IN (IF e.bn354 > 0 THEN <<P("VIOL", "C16", "bystander-told-new-privileges", [missing |-> {}, extra |-> IF Len(e.bwire) = 8 THEN FromBytes(e.bwire) ELSE {-1}])>> ELSE <<>>)
+               \o V("bystander-authorize", bA \cap Defined, s.B \cap Defined)
+               \o V("bystander-file", bK, s.B \cap Defined)
+               \o D("undefined bits in the bystander's authorization", bA \ Defined, s.B \ Defined))
       \o (IF ToBytes(S) # e.bytes THEN <<P("DRIFT", "C16", "script bytes are not ToBytes(S)", [b |-> e.bytes])>> ELSE <<>>)
 
 (* ---- the trace machine ------------------------------------------------------- *)
@@ -311,6 +344,7 @@ ApplyEv ==
                               [] s.op = "upd"    -> UpdProblems(e, s)
                               [] s.op = "multi"  -> MultiProblems(e, s, rep', accts')
                               [] s.op = "open"   -> OpenProblems(e, s)
+                              [] s.op = "batch"  -> BatchProblems(e, s, accts')
                IN \A i \in DOMAIN probs : Report(probs[i], e)
   /\ ph' = "reset" /\ l' = l + 1
   /\ TLCSet(1, l')
